@@ -183,4 +183,5 @@ package qr
 // ---- mode dispatch: every defined mode constant has an encoder (a nil func value would panic at
 // the call in EncodeWithColor, C10)
 //@ func (Encoding).getEncoder
+//@   inline
 //@   ensures (e == Auto || e == Numeric || e == AlphaNumeric || e == Unicode) ==> result != nil
